@@ -228,6 +228,22 @@ func main() {
 	deadline := time.Now().Add(bud)
 	hard := bud*2 + 60*time.Second
 
+	for _, un := range m.Units {
+		if strings.HasPrefix(un, "wire/") {
+			// the real binary, built from the working tree through the same overlay (pass-through)
+			bin := filepath.Join(work, "vipnode")
+			cmd := exec.Command("go", "build", "-overlay", overlay, "-tags", "verif", "-o", bin, ".")
+			cmd.Dir = repo
+			cmd.Env = goEnv()
+			if b, err := cmd.CombinedOutput(); err != nil {
+				fmt.Printf("%s\n", b)
+				cleanup()
+				infra("cannot build the vipnode binary: %v", err)
+			}
+			os.Setenv("VERIF_VIPNODE_BIN", bin)
+			break
+		}
+	}
 	raceWorker := ""
 	for _, un := range m.Units {
 		if strings.HasPrefix(un, "racepass/") {
@@ -538,7 +554,7 @@ func runUnits(worker, raceWorker, id, tier string, seed int64, units []string, n
 				cmd = exec.Command(bin, "-check", id, "-tier", tier, "-serve", "-deadline", strconv.FormatInt(deadline.Unix(), 10), "-seed", strconv.FormatInt(seed, 10))
 				cmd.Env = append(os.Environ(), "VERIF_SCRATCH="+work, "GOMAXPROCS=2")
 				if bin == raceWorker {
-					cmd.Env = append(os.Environ(), "VERIF_SCRATCH="+work, "GOMAXPROCS=4", "GORACE=halt_on_error=1 exitcode=66")
+					cmd.Env = append(os.Environ(), "VERIF_SCRATCH="+work, "GOMAXPROCS=4", "GORACE=halt_on_error=1 exitcode=66", "VERIF_NO_RLIMIT=1")
 				}
 				cmd.SysProcAttr = &syscall.SysProcAttr{Setpgid: true}
 				stderr = &bytes.Buffer{}
